@@ -99,7 +99,7 @@ func genC04(g *Gen) {
 		cards = append(cards, 300, 1000, 3000)
 	}
 	colsets := []string{"AF", "ABT", "FS", "SE", "FGB", "TX", "AFTSE", "EDA", "GRB"}
-	for rep := 0; rep < g.pick(60, 900); rep++ {
+	for rep := 0; rep < g.pick(150, 1200); rep++ {
 		n := sizes[g.rng.Intn(len(sizes))]
 		card := cards[g.rng.Intn(len(cards))]
 		g.begin("groupby")
@@ -111,6 +111,9 @@ func genC04(g *Gen) {
 		if s.err || len(s.names) == 0 {
 			g.end()
 			continue
+		}
+		if n <= 300 && g.rng.Intn(2) == 0 {
+			f = g.do(Step{Op: "Sort", Recv: f, Orders: g.sortOrders(s, 2)})
 		}
 		f = g.do(Step{Op: "WithRowNums", Recv: f, Dst: rid})
 		for k := 0; k < 2; k++ {
